@@ -1,25 +1,39 @@
-#!/bin/sh
+#!/bin/bash
 # usage: tools/coqchk.sh [Cxx ...]   — independent re-check (coqchk -o) of every property's compiled Properties.vo
 # (and PropertiesSM.vo for C07) with everything it depends on; writes coqchk/<Cxx>.txt (context summary: axioms,
-# type-in-type, unsafe fixpoints, assumed positivity).  Needs a built coq/ tree (./setup.sh or any ./check run).
-cd "$(dirname "$0")/../coq" || exit 2
-mkdir -p ../coqchk
+# type-in-type, unsafe fixpoints, assumed positivity).
+# Under the build lock the property's .vo files are brought up to date and snapshotted (other checks regenerate
+# ParamsGen files concurrently); coqchk then runs on the snapshot without holding the lock.
+V="$(cd "$(dirname "$0")/.." && pwd)"
+cd "$V/coq" || exit 2
+mkdir -p "$V/coqchk" "$V/build/coqchk"
 props="$*"
 [ -n "$props" ] || props=$(ls -d C[0-9][0-9] | tr '\n' ' ')
-rc=0
 run_one() {
   p=$1
+  snap="$V/build/coqchk/$p"
+  out="$V/coqchk/$p.txt"
   mods="LTV.$p.Properties"
-  [ -f $p/PropertiesSM.vo ] && mods="$mods LTV.$p.PropertiesSM"
-  out=../coqchk/$p.txt
+  (
+    flock 9
+    [ -f Makefile ] && make -k -j8 $p/Properties.vo $( [ -f $p/PropertiesSM.v ] && echo $p/PropertiesSM.vo ) > /dev/null 2>&1
+    rm -rf "$snap"; mkdir -p "$snap"
+    rsync -a --include='*/' --include='*.vo' --exclude='*' --exclude='extracted/' ./ "$snap"/
+  ) 9> "$V/build/coq.lock"
+  [ -f "$snap/$p/PropertiesSM.vo" ] && mods="$mods LTV.$p.PropertiesSM"
   { echo "# coqchk -o -silent -Q . LTV $mods   (coq $(coqc --version | head -n1 | sed 's/.*version //'))"
-    timeout 3000 coqchk -o -silent -Q . LTV $mods 2>&1; echo "exit=$?"; } > $out
-  grep -q '^exit=0' $out || { echo "coqchk FAILED for $p (see coqchk/$p.txt)"; return 1; }
-  echo "$p: $(grep -A1 '^\* Axioms' $out | tail -n 1 | sed 's/^ *//')"
+    ( cd "$snap" && timeout 3000 coqchk -o -silent -Q . LTV $mods 2>&1 ); echo "exit=$?"; } > "$out"
+  rm -rf "$snap"
+  if grep -q '^exit=0' "$out"; then
+    echo "$p: $(grep "^\* Axioms" "$out")"
+  else
+    echo "coqchk FAILED for $p (see coqchk/$p.txt)"; return 1
+  fi
 }
-for p in $props; do run_one $p & 
-  while [ $(jobs -r | wc -l) -ge 6 ]; do sleep 2; done
+rc=0
+for p in $props; do
+  run_one $p &
+  while [ "$(jobs -r | wc -l)" -ge 5 ]; do sleep 2; done
 done
-wait
-grep -L '^exit=0' ../coqchk/C*.txt | grep -q . && rc=1
+for j in $(jobs -p); do wait $j || rc=1; done
 exit $rc
